@@ -7,7 +7,7 @@
 import JoinModel.Spec
 namespace JoinModel
 
-inductive OpMode | init | map | andThen | then_ | inspect | orElse | mapErr | or_
+inductive OpMode | init | map | andThen | then_ | inspect | orElse | mapErr | or_ | filter
   deriving DecidableEq, Repr, Inhabited
 
 /-- what the instrumented function does when it is called -/
@@ -76,6 +76,14 @@ def applyOp (op : COp) (cur : Value) : List Nat × UR Value :=
       | .panic n => .panic n
       | .ok c => .ok (match cur with | .succ v => .succ v | _ => .succ (.atom c))
       | .fail c => .ok (match cur with | .succ v => .succ v | _ => .fail (.atom c)))
+  | .filter =>
+    -- `.filter(pred)`: the predicate runs on a success; true keeps the value as it is, false turns it into a failure
+    match cur with
+    | .succ v => ([op.cb], match op.out with
+        | .panic n => .panic n
+        | .ok _ => .ok (.succ v)
+        | .fail c => .ok (.fail (.atom c)))
+    | v => ([], .ok v)
   | .mapErr =>
     match cur with
     | .fail e => ([op.cb], match op.out with
@@ -169,7 +177,7 @@ def parseOutcome (s : String) : Option Outcome :=
 
 def parseMode : String → Option OpMode
   | "init" => some .init | "map" => some .map | "andThen" => some .andThen | "then" => some .then_
-  | "inspect" => some .inspect | "orElse" => some .orElse | "mapErr" => some .mapErr | "or" => some .or_ | _ => none
+  | "inspect" => some .inspect | "orElse" => some .orElse | "mapErr" => some .mapErr | "or" => some .or_ | "filter" => some .filter | _ => none
 
 /-- `mode:cb:outcome[:gate]` -/
 def parseCOp (s : String) : Option COp :=
